@@ -236,8 +236,26 @@ def run_addseq(spec, res):
         except IndexError:
             pass
         # allow_all with a shared value
-        allm = G.find_idx("u", [1.0], allow_none=True, default=None, allow_all=True)
-        res.count("queries_checked")
+        def _k(i):
+            # the text '30' and the number 30 are different devices
+            return ("s", i) if isinstance(i, str) else ("n", float(i))
+        try:
+            allm = G.find_idx("u", [1.0], allow_none=True, default=None, allow_all=True)
+            res.count("queries_checked")
+            # brute force over every model of the group: all devices whose u equals 1, whichever model they belong to
+            want = set()
+            for mname_ in G.models:
+                mm_ = getattr(ss, mname_)
+                want.update(_k(i) for i, u_ in zip(mm_.idx.v, mm_.u.v) if u_ == 1.0)
+            got = [_k(i) for i in (allm[0] if allm and isinstance(allm[0], (list, tuple, np.ndarray)) else allm) if i is not None]
+            res.count("allow_all_group_queries")
+            if len({type(getattr(ss, m_)).__name__ for m_ in G.models if getattr(ss, m_).n}) > 1:
+                res.count("allow_all_group_queries_spanning_models")
+            if set(got) != want or len(got) != len(set(got)):
+                res.violate("find_idx_allow_all", "%s.find_idx(u=1, allow_all=True) returned %d devices %s..., brute force over the models %s finds %d" % (
+                    grp, len(got), sorted(map(str, got))[:5], [m_ for m_ in G.models if getattr(ss, m_).n], len(want)))
+        except Exception as e:
+            res.violate("query_raised", "find_idx(allow_all=True) raised %r" % (e,))
     res.sig = "addseq:%d:%d" % (spec.get("seed", 0), spec["index"])
     res.nontrivial = res.obs.get("additions_checked", 0) >= 10
     res.sample = dict(additions=nops, explicit_duplicates=res.obs.get("explicit_duplicates", 0),
